@@ -125,7 +125,7 @@ GRIDS = [("quadratic", 30, 3.0), ("geometric", 30, 0), ("irregular", 30, 3.0), (
 def cases_S(tier, seed):
     thorough = tier == "thorough"
     nxs = [3, 4, 5, 8, 16, 50, 150, 201, 400, 1000] if thorough else [3, 4, 8, 50, 150, 401]
-    tabs = ["T_ship_gas", "A_kink", "A_fall", "S_zdip", "S_zdip_desc"] + (["T_hay", "T_lib", "T_ship_oil", "A_jump", "A_kink1e3", "A_fall"] if thorough else ["A_jump"])
+    tabs = ["T_ship_gas", "A_kink", "A_fall", "S_zdip", "S_zdip_desc", "S_zdip_f32"] + (["T_hay", "T_lib", "T_ship_oil", "A_jump", "A_kink1e3", "A_fall"] if thorough else ["A_jump"])
     pairs = [(100.0, 8000.0), (7000.0, 8000.0), (7990.0, 8000.0), (4003.3, 7703.7)]  # the last: both pressures between rows
     if seed:
         off = seed_offset(seed)
